@@ -905,7 +905,15 @@ func (c *c07ctx) ruleR7(fn *ssa.Function) {
 					if g, ok := x.X.(*ssa.Global); ok {
 						bad = "global " + g.Name()
 					}
+					// an element of a container (ring of reusable buffers): as the container
+					if ia, ok := x.X.(*ssa.IndexAddr); ok {
+						walk(ia.X)
+					}
 				}
+			case *ssa.Lookup:
+				walk(x.X)
+			case *ssa.Index:
+				walk(x.X)
 			case *ssa.Slice:
 				walk(x.X)
 			case *ssa.Phi:
